@@ -616,7 +616,7 @@ theorem lookup_other_of_filter_ne (as bs : Attrs) (j k : Int) (hjk : j ≠ k)
     · simp [ha]
   rw [e bs, e as, h]
 
-theorem filter_eq_of_filter_ne (as bs : Attrs) (j k : Int) (hjk : j ≠ k)
+theorem attrsFilter_eq_of_filter_ne (as bs : Attrs) (j k : Int) (hjk : j ≠ k)
     (h : bs.filter (fun a => a.typ ≠ k) = as.filter (fun a => a.typ ≠ k)) :
     bs.filter (fun a => a.typ = j) = as.filter (fun a => a.typ = j) := by
   have e : ∀ (l : Attrs), l.filter (fun a => a.typ = j) =
